@@ -2020,6 +2020,76 @@ def _twin_waiver_first(src):
     return src
 
 
+def _twin_append_verified(src):
+    """instantiate / verify / append moved into a static helper"""
+    src = src.replace(
+        "                    bna = b_cls(pp, **kwargs)\n"
+        "                    if bna.verify_basin():\n"
+        "                        basins.append(bna)\n"
+        "                        break\n",
+        "                    if self._basin_append_verified(basins, b_cls, pp, "
+        "kwargs):\n"
+        "                        break\n", 1)
+    src = src.replace(
+        "                        bnr = b_cls(this_path.parent / pp, **kwargs)\n"
+        "                        if bnr.verify_basin():\n"
+        "                            basins.append(bnr)\n"
+        "                            break\n",
+        "                        if self._basin_append_verified(\n"
+        "                                basins, b_cls, this_path.parent / pp, "
+        "kwargs):\n"
+        "                            break\n", 1)
+    return src.replace(
+        "    def get_measurement_identifier(self):\n",
+        "    @staticmethod\n"
+        "    def _basin_append_verified(basins, b_cls, location, kwargs):\n"
+        "        bn = b_cls(location, **kwargs)\n"
+        "        if bn.verify_basin():\n"
+        "            basins.append(bn)\n"
+        "            return True\n"
+        "        return False\n\n"
+        "    def get_measurement_identifier(self):\n", 1)
+
+
+_TWIN_CANDIDATES = (
+    "            for bn in list(self.basins):\n"
+    "                if basin_type is not None and basin_type != bn.basin_type:\n"
+    "                    # User asked for specific basin type\n"
+    "                    continue\n",
+    "            candidates = (\n"
+    "                bn for bn in list(self.basins)\n"
+    "                if basin_type is None or basin_type == bn.basin_type)\n"
+    "            for bn in candidates:\n")
+
+
+def _twin_match_function(src):
+    """verifier selection, None rejection and comparison in a module-level
+    pure function with an early return"""
+    a = src.index('                    if self.mapping == "same":\n'
+                  '                        # When we have identical mapping')
+    b = src.index("            check_rid = self._measurement_identifier_verified\n")
+    src = src[:a] + (
+        "                    self._measurement_identifier_verified = \\\n"
+        "                        _measurement_identifiers_match(\n"
+        "                            mapping=self.mapping,\n"
+        "                            referrer_identifier=self.measurement_identifier,\n"
+        "                            basin_identifier=self.get_measurement_identifier()\n"
+        "                        )\n") + src[b:]
+    return src.replace(
+        "class BasinProxy:\n",
+        "def _measurement_identifiers_match(mapping, referrer_identifier,\n"
+        "                                   basin_identifier):\n"
+        "    if mapping == \"same\":\n"
+        "        verifier = str.__eq__\n"
+        "    else:\n"
+        "        verifier = str.startswith\n"
+        "    if basin_identifier is None:\n"
+        "        return False\n"
+        "    return verifier(referrer_identifier, basin_identifier)\n\n\n"
+        "class BasinProxy:\n", 1)
+
+
+
 def _twin_forward_constant(src):
     """forwarding list as module constant, early raise"""
     a = src.index("    def __getattr__(self, item):\n        if item in [\n"
@@ -2074,6 +2144,12 @@ TWINS = [
       "        self._ds.ignore_basins(seen_basin_keys)\n"
       "        return self._ds\n")),
     ("ignore keys collected by a loop and extend()", CORE, _twin_key_loop),
+    ("file basins appended by a static helper with early return", CORE,
+     _twin_append_verified),
+    ("basin loop over a filtering generator expression", CORE,
+     _TWIN_CANDIDATES),
+    ("identifier comparison in a module-level function", FB,
+     _twin_match_function),
     ("proxy forwarding list as module constant, early raise", FB,
      _twin_forward_constant),
     ("writer identifier test rewritten with De Morgan", WRITER,
